@@ -10,7 +10,6 @@ by resampling is scripted (every draw sequence) and the *law* of the resampled h
 law of the histogram's frequencies.
 """
 import itertools
-import math
 import os
 import random as _pyrandom
 from collections import Counter
@@ -41,7 +40,8 @@ ASSUMPTIONS = [
     "expectation values: exact per-basis distributions of 6 fixed states from mc/ref/statevec.py, tolerance 1e-9",
     "histograms: bitstrings of length 1-3, support <= 4, counts {0,1,2,5}; probability tables over {1/4,1/2,3/4,1} "
     "(exact in binary floating point, so 'conserved exactly' is tested with ==; renormalised results with 1e-12)",
-    "Histogram(frequencies, n_shots) only for frequencies that are multiples of 1/n_shots (realisable with n_shots shots)",
+    "Histogram(frequencies, n_shots) only for frequencies that are multiples of 1/n_shots (realisable with n_shots shots): "
+    "dyadic tables with n_shots in {4,8,20}, count histograms re-entered as frequencies, two-outcome tables in hundredths with 100 shots",
     "post-selection on an outcome of zero mass may return an empty histogram or raise; nothing is required of it",
     "histograms are compared as multisets: entries of weight zero are immaterial (Counter addition drops them); a chained "
     "sum h1 + h2 + h3 whose intermediate h1 + h2 holds no shot at all is outside the premise (aggregate_histograms(h1,h2,h3) is checked)",
@@ -428,6 +428,10 @@ def check_group(case, acc):
             if () in got_map:       # the identity needs no measurement; if listed, it commutes with every basis
                 if got_map.pop(()) != sorted(bases):
                     bad("map_measurements_qwc", "identity-entry-wrong", {"got": mm.get(())}, choices)
+            for t, bs in got_map.items():   # informational: qubit-wise commuting, yet the basis leaves an X/Y factor unmeasured
+                for b in bs:
+                    if any(p != "Z" and q not in dict(b) for q, p in t):
+                        acc.count("map_lists_commuting_basis_that_measures_an_XY_factor_of_the_term_in_Z")
             if got_map != exp_map:
                 bad("map_measurements_qwc", "not-exactly-the-compatible-bases", {"got": got_map, "expected": exp_map}, choices)
         # 4. expectation value assembled from exact per-basis histograms == term-by-term value
@@ -596,6 +600,14 @@ def check_hist(case, acc):
                     bad("Histogram.__init__(n_shots)", "counts-differ-from-frequency-times-shots",
                         {"got": hf.counts, "ref": ref, "n_shots": N, "msq_first": msq})
 
+    if mode == "probs":      # informational: tables that cannot be realised with N shots do not keep the stated total
+        for N in (1, 2, 3):
+            try:
+                if Histogram(dict(d), n_shots=N).n_shots != N:
+                    acc.count("nonrealisable_frequency_table_total_differs_from_n_shots")
+            except Exception:
+                acc.count("nonrealisable_frequency_table_raises")
+
     # marginalisation: every index subset; expectation of every term supported on the remaining qubits is unchanged
     for idx in subsets(L):
         hr = Histogram(dict(d))
@@ -609,6 +621,12 @@ def check_hist(case, acc):
                 extra=f"/rm{len(idx)}")
         elif tot > 0 and hr.n_qubits != L - len(idx):
             bad("Histogram.remove_qubit_indices", "wrong-width", {"indices": idx, "got": hr.counts}, extra=f"/rm{len(idx)}")
+        if len(idx) > 1:       # the same index set given in reverse order with a repetition
+            alt = idx[::-1] + (idx[0],)
+            hr2 = Histogram(dict(d))
+            ok, _ = call("Histogram.remove_qubit_indices", hr2.remove_qubit_indices, *alt)
+            if ok and not RH.same(hr2.counts, ref):
+                bad("Histogram.remove_qubit_indices", "counts-differ", {"indices": alt, "got": hr2.counts, "ref": ref}, extra=f"/rm{len(idx)}r")
         if idx and len(RH.clean(ref)) < len(RH.clean(d)):
             acc.nt(str(("remove", sorted(d.items()), idx)))
         acc.out(str(("remove", sorted(RH.clean(hr.counts).items()))))
@@ -672,6 +690,30 @@ def check_hist(case, acc):
             if hfil.counts is h.counts:
                 bad("filter_hist", "result-aliases-operand", {})
     acc.states += 1
+
+
+@guarded
+def check_decimal(case, acc):
+    """Histogram(frequencies, n_shots=100) for two-outcome tables in hundredths: realisable with 100 shots but not exact
+    in binary floating point (0.29 * 100 = 28.999999999999996), so the count bookkeeping has to round, not truncate."""
+    from tangelo.toolboxes.post_processing import Histogram
+    L, k, msq = case["L"], case["k"], case["msq"]
+    keys = {1: ["0", "1"], 2: ["01", "10"]}[L]
+    fr = {keys[0]: k / 100, keys[1]: (100 - k) / 100}
+    ref = {keys[0]: k, keys[1]: 100 - k}
+    ref = RH.reverse(ref) if msq else ref
+    acc.ev()
+    acc.states += 1
+    acc.transitions += 1
+    h = Histogram(dict(fr), n_shots=100, msq_first=msq)
+    if not RH.same(h.counts, ref) or h.n_shots != 100:
+        acc.violation(f"Histogram.__init__(n_shots)/counts-differ-from-frequency-times-shots/decimal/L{L}", case,
+                      {"got": h.counts, "ref": ref, "n_shots": h.n_shots,
+                       "repro": _hist_repro(fr, [f"h = Histogram(d, n_shots=100, msq_first={msq}); print(h.counts, h.n_shots)"])},
+                      group="Histogram.__init__(n_shots)/counts-differ-from-frequency-times-shots")
+    if (k / 100) * 100 != k:
+        acc.nt(f"decimal {L} {k} {msq}")
+    acc.out(f"decimal {sorted(h.counts.items())}")
 
 
 def law_of(execs):
@@ -781,7 +823,10 @@ def check_resample(case, acc):
     if unmatched and execs:
         bad("law-of-resampled-histogram-is-not-multinomial(frequencies)",
             {"law": sorted(law.items()), "ref": sorted(ref.items()), "frequencies": freqs,
-             "repro": _hist_repro(d, [f"print(Histogram(d).frequencies); print(Histogram(d).resample({n}).counts)  # keys/weights must follow the frequencies"])})
+             "repro": _hist_repro(d, [f"print(Histogram(d).frequencies); print(Histogram(d).resample({n}).counts)  # keys must follow the frequencies"
+                                      if via == "method" else
+                                      f"from tangelo.toolboxes.post_processing.bootstrapping import get_resampled_frequencies\n"
+                                      f"print(get_resampled_frequencies(d, {n}))  # keys must be keys of d"])})
     acc.states += n_exec
     if n_exec > 1:
         acc.nt(str(("resample", via, sorted(d.items()), n)))
@@ -998,7 +1043,7 @@ def group_configs(tier, nwords, order_kind):
     if tier == "thorough" or nwords <= 3:
         cfg.append((None, 3))
     if order_kind == "perm":     # the extra term orders of the thorough tier
-        cfg = [(None, 1), (None, 2), (0, 1), (0, 2)]
+        cfg = [(None, 1), (0, 1), (0, 2)] + ([(None, 2)] if nwords <= 3 else [])
     return cfg
 
 
@@ -1015,10 +1060,6 @@ def group_cases(tier, n, ws):
         coefs = coefs_for(n, words)
         for seed, r in group_configs(tier, len(words), kind):
             yield {"kind": "group", "n": n, "words": words, "coefs": coefs, "seed": seed, "n_repeat": r}
-
-
-def hist_pool(L, max_support):
-    return count_hists(L, max_support)
 
 
 def nary_plan(tier):
@@ -1072,7 +1113,8 @@ def bounds(tier, seed):
     return {"tier": tier, "two_qubit_words": len(WORDS2), "two_qubit_operators": len(word_sets(2, 4)),
             "three_qubit_words": WORDS3, "three_qubit_operators": len(word_sets(3, 3 if tier == "quick" else 4)),
             "coefficients": [repr(c) for c in COEFS], "int_seeds": INT_SEEDS, "n_repeat": REPEATS,
-            "term_orders": "sorted+reversed" if tier == "quick" else "all permutations (extra orders with 4 configs)",
+            "term_orders": "sorted+reversed" if tier == "quick" else
+            "all permutations (the extra orders with (seed,n_repeat) in {(None,1),(0,1),(0,2)} and (None,2) for <= 3 words)",
             "count_alphabet": COUNTS, "count_histograms": {L: len(count_hists(L)) for L in (1, 2, 3)},
             "probability_tables": {L: len(prob_tables(L)) for L in (1, 2, 3)},
             "nary_plan": nary_plan(tier), "resample_plan": resample_plan(tier), "generic_angle_delta": runner.seed_delta(seed)}
@@ -1101,6 +1143,7 @@ def shards(tier, seed):
         size = 40 if tier == "quick" else 12
         for lo, hi in _chunks(nws, size):
             sh.append({"kind": "group", "n": n, "kmax": kmax, "lo": lo, "hi": hi, "tier": tier, "seed": seed})
+    sh.append({"kind": "decimal"})
     sh.append({"kind": "qwc", "n": 2})
     sh.append({"kind": "qwc", "n": 3})
     # unary histogram operations and frequency-dict helpers
@@ -1122,7 +1165,7 @@ def shards(tier, seed):
     for lo, hi in _chunks(nres, 1500 if tier == "quick" else 3000):
         sh.append({"kind": "resample", "lo": lo, "hi": hi, "tier": tier})
     # heaviest first
-    order = {"group": 0, "resample": 1, "nary": 2, "hist": 3, "qwc": 4}
+    order = {"group": 0, "resample": 1, "nary": 2, "hist": 3, "qwc": 4, "decimal": 5}
     sh.sort(key=lambda s: order[s["kind"]])
     return sh
 
@@ -1147,6 +1190,12 @@ def _run_shard(sh):
     elif k == "qwc":
         check_qwc_pairs({"kind": "qwc", "n": sh["n"]}, acc)
         acc.sample({"kind": "qwc", "n": sh["n"], "pair": ["XZ" + "I" * (sh["n"] - 2), "IZ" + "I" * (sh["n"] - 2)]}, cap=1)
+    elif k == "decimal":
+        for L in (1, 2):
+            for kk in range(1, 100):
+                for msq in (False, True):
+                    check_decimal({"kind": "decimal", "L": L, "k": kk, "msq": msq}, acc)
+        acc.sample({"kind": "decimal", "L": 2, "k": 29, "msq": True}, cap=1)
     elif k == "hist":
         pool = (count_hists(sh["L"]) if sh["mode"] == "counts" else prob_tables(sh["L"]))[sh["lo"]:sh["hi"]]
         for d in pool:
@@ -1190,6 +1239,8 @@ def replay_case(case):
             print("--- standalone reproduction ---\n" + repro_group(case))
         elif k == "qwc":
             check_qwc_pairs(case, acc)
+        elif k == "decimal":
+            check_decimal(case, acc)
         elif k == "hist":
             check_hist(case, acc)
         elif k == "freqfuns":
